@@ -127,7 +127,7 @@ typedef struct tk_s {
 	char pol[CL_N][MAXPOL][8]; int npol[CL_N], ipol[CL_N];  /* callback policy per condition class */
 	volatile int cbs, tmo_cbs, eof_cbs, err_cbs;
 	volatile int destroyed;
-	int owner;
+	int owner, handler;
 } tk_t;
 static tk_t g_tk[MAXTK];
 static volatile long g_activity;   /* bumped by every task-related step of a pool thread */
@@ -293,6 +293,20 @@ static int run_policy(tk_t *tk, int cls) {
 	int ret = TP_TASK_CB_NONE;
 	for (const char *p = it; *p; p++) {
 		switch (*p) {
+		case 'g': {
+			uint8_t tmp[512]; size_t n = 0;
+			pthread_mutex_lock(&tk->mu);
+			for (;;) {
+				size_t cap = sizeof(tmp) - n;
+				if (tk->ncap > 0) { int c = tk->caps[tk->capi % tk->ncap]; tk->capi++; if (c > 0 && (size_t)c < cap) cap = (size_t)c; }
+				ssize_t rc = read(tk->fd, tmp + n, cap);
+				if (rc <= 0) break;
+				n += (size_t)rc;
+				if (n >= sizeof(tmp)) break;
+			}
+			LOGEV("\"e\":\"cb.read\",\"k\":%d,\"ids\":%s", tk->k, arr(0, tmp, n));
+			pthread_mutex_unlock(&tk->mu);
+			break; }
 		case 'r': api_rewind(tk); break;
 		case 's': api_stop(tk); break;
 		case 'd': api_enable(tk, 0); break;
@@ -316,6 +330,26 @@ static int task_cb(tp_task_p tptask, int error, io_buf_p buf, uint32_t eof, size
 	perturb();
 	int ret;
 	if (tk->cbs >= 40 && tk->task != NULL) { api_stop(tk); ret = TP_TASK_CB_NONE; }   /* a callback may always stop its task: bounds the log */
+	else ret = run_policy(tk, cls);
+	LOGEV("\"e\":\"taskcb.end\",\"k\":%d,\"ret\":%d", tk->k, ret);
+	if (error == ETIMEDOUT) tk->tmo_cbs++;
+	else if (error != 0) tk->err_cbs++;
+	if (eof != 0) tk->eof_cbs++;
+	tk->cbs++;
+	return ret;
+}
+
+static int notify_cb(tp_task_p tptask, int error, uint32_t eof, size_t d2t, void *udata) {
+	tk_t *tk = udata;
+	tpt_p cur = tpt_get_current();
+	int cls = (error == ETIMEDOUT) ? CL_TMO : (error != 0) ? CL_ERR : (eof != 0) ? CL_EOF : CL_PART;
+	long nn = (d2t > 100000000ul) ? 100000000l : (long)d2t;
+	LOGEV("\"e\":\"taskcb.begin\",\"k\":%d,\"same\":%d,\"err\":%d,\"eof\":%u,\"nb\":%ld,\"size\":%zu,\"used\":%zu,\"off\":%zu,\"tr\":%zu,\"foff\":%ld,\"cur\":%ld,\"mem\":%s",
+	    tk->k, (tptask == tk->task) ? 1 : 0, error, (unsigned)eof, nn, tk->buf.size, tk->buf.used, tk->buf.offset,
+	    tk->buf.transfer_size, (long)tp_task_offset_get(tptask), cur ? (long)cur->thread_num : -1L, arr(1, tk->buf.data, tk->buf.size));
+	perturb();
+	int ret;
+	if (tk->cbs >= 40 && tk->task != NULL) { api_stop(tk); ret = TP_TASK_CB_NONE; }
 	else ret = run_policy(tk, cls);
 	LOGEV("\"e\":\"taskcb.end\",\"k\":%d,\"ret\":%d", tk->k, ret);
 	if (error == ETIMEDOUT) tk->tmo_cbs++;
@@ -424,7 +458,7 @@ static int tk_ops(const char *op, const char *args) {
 	}
 	if (!strcmp(op, "tkcreate")) { /* tkcreate k thr handler(0 sr,1 rw,2 notify) taskflags */
 		sscanf(args, "%d %d %d %d", &k, &a, &b, &c);
-		tk_t *tk = &g_tk[k]; tk->owner = a;
+		tk_t *tk = &g_tk[k]; tk->owner = a; tk->handler = b;
 		tp_cb h = (b == 0) ? tp_task_sr_handler : (b == 1) ? tp_task_rw_handler : tp_task_notify_handler;
 		int rc = tp_task_create(thr(a), (uintptr_t)tk->fd, h, (uint32_t)c, tk, &tk->task);
 		LOGEV("\"e\":\"tkcreate\",\"k\":%d,\"thr\":%d,\"h\":%d,\"tflags\":%d,\"rc\":%d", k, a, b, c, rc);
@@ -436,7 +470,8 @@ static int tk_ops(const char *op, const char *args) {
 		tk_t *tk = &g_tk[k];
 		LOGEV("\"e\":\"call.start\",\"k\":%d,\"direct\":%d,\"ev\":%d,\"efl\":%d,\"tmo\":%lu,\"foff\":%ld,\"tflags\":%u", k, a, b, c, tmo, fo,
 		    (unsigned)tp_task_flags_get(tk->task));
-		int rc = tp_task_start_ex(a ? 0 : 1, tk->task, (uint16_t)b, (uint16_t)c, (uint64_t)tmo, (off_t)fo, &tk->buf, task_cb);
+		int rc = tp_task_start_ex(a ? 0 : 1, tk->task, (uint16_t)b, (uint16_t)c, (uint64_t)tmo, (off_t)fo, &tk->buf,
+		    (tk->handler == 2) ? (tp_task_cb)notify_cb : task_cb);
 		LOGEV("\"e\":\"ret.start\",\"k\":%d,\"rc\":%d", k, rc);
 		return 1;
 	}
